@@ -1,6 +1,7 @@
 import PyElf.Driver.Json
 import PyElf.Driver.C01
 import PyElf.Spec.Dynamic
+import PyElf.Spec.DynamicExt
 import PyElf.Model.Dynamic
 import PyElf.Model.Env
 open Lean
@@ -157,6 +158,59 @@ def specObserve (d : DynDesc) (full : Bool) (names : List Bytes) (tagq : List St
         | none => Json.null).toArray)])
   Json.mkObj [("ok", Json.mkObj [("sec", Json.mkObj [("ok", sec)]), ("seg", Json.mkObj [("ok", seg)])])]
 
+/-! extended domains (fifth wave): what the theorems of Props/C09.lean say must be observed through the
+    `DynamicSegment` when the description is outside `DynDesc.wf` — string table by the `.dynstr` section
+    or not at all, no reachable hash table (the count fallback), DT_SYMTAB unmapped, a table that runs
+    off the end of the image.  Only the parts a theorem covers are listed; the harness compares exactly
+    those. -/
+
+def routeName : StrRoute → String
+  | .link => "link" | .pointer => "pointer" | .byName => "byName" | .none => "none"
+
+def errJson (e : Err) : Json := Json.mkObj [("err", Json.str e.name)]
+
+def specExt (d : DynDesc) (full : Bool) (bytes : Bytes) (names : List Bytes) : Json :=
+  let base := d.regionsOk full && d.wfBase elfEnv && (d.container full).wf elfEnv && decide (bytes.length < 2 ^ 63)
+  let term := hasTerminator d.tags
+  let route := d.strRoute elfEnv full
+  let tagsOk := d.wfTags elfEnv full
+  -- tags / num_tags
+  let (tagPart, tagDom) : List (String × Json) × List String :=
+    if !base then ([], [])
+    else if tagsOk then (specTagsPart d, ["tags:route=" ++ routeName route])         -- seg_tags_exact_routes
+    else if term && route == .none then                                               -- seg_tags_no_strtab
+      ([("tags", errJson .elfError), ("num_tags", errJson .elfError)], ["tags:no-string-table"])
+    else if !term && stringsOk d && d.strOk elfEnv full && route != .byName &&
+        decide (bytes.length < d.dynOff + d.tags.length * (2 * d.w) + 2 * d.w) then  -- seg_tags_truncated
+      ([("tags", errJson .elfParseError), ("num_tags", errJson .elfParseError)], ["tags:truncated:route=" ++ routeName route])
+    else ([], [])
+  -- symbols
+  let symsExact : List (String × Json) :=
+    [("num_symbols", Json.mkObj [("ok", jN d.syms.length)]),
+     ("symbols", resJson (fun l => Json.arr (l.map symJson).toArray) (obsSyms elfEnv d)),
+     ("by_name", Json.arr (names.map fun q => resJson byNameJson (obsByName elfEnv d q)).toArray)]
+  let how := match firstVal d.live DT_SYMTAB with
+    | some a => if (minAbove (d.live.map (·.2)) a).isSome then "end=nearest-entry" else "end=segment-end"
+    | none => "-"
+  let (symPart, symDom) : List (String × Json) × List String :=
+    if !base then ([], [])
+    else if tagsOk && d.wfSyms elfEnv && d.wfHash elfEnv && hashOk d then (symsExact, ["syms:hash"])   -- seg_by_name_exact
+    else if tagsOk && d.wfSyms elfEnv && d.noHash elfEnv then
+      if !symentOk d.symsz d.live then                                                -- seg_num_symbols_fallback
+        ([("num_symbols", errJson .elfError)], ["syms:fallback:syment-mismatch"])
+      else if d.fallbackExact elfEnv then (symsExact, ["syms:fallback:exact:" ++ how])  -- seg_symbols_exact_fallback
+      else match d.fallbackCount elfEnv with
+        | some n => ([("num_symbols", Json.mkObj [("ok", jN n)])], ["syms:fallback:inexact:" ++ how])
+        | none => ([("num_symbols", errJson .typeError)], ["syms:fallback:no-end"])
+    else if term && d.noHash elfEnv && ((firstVal d.live DT_SYMTAB).bind (mapAddr (d.phdrs elfEnv))).isNone then
+      ([("num_symbols", errJson .elfError), ("symbols", errJson .elfError),           -- seg_symbols_unmapped
+        ("by_name", Json.arr (names.map fun _ => errJson .elfError).toArray)], ["syms:symtab-unmapped"])
+    else ([], [])
+  -- the `DynamicSection` view of the full layout                                   -- sec_tags_exact_base
+  let secPart : List (String × Json) := if full && base && term && stringsOk d then specTagsPart d else []
+  Json.mkObj [("expect_seg", Json.mkObj (tagPart ++ symPart)), ("expect_sec", Json.mkObj secPart),
+              ("dom", Json.arr ((tagDom ++ symDom).map Json.str).toArray)]
+
 def hexList (req : Json) (k : String) : Except String (List Bytes) := do
   (← jArr req k).mapM fun q => match q with
     | Json.str h => match Bytes.ofHex h with
@@ -184,7 +238,14 @@ def handle (req : Json) : Except String Json := do
                     -- the container is a well-formed ELF description in the sense of C01: together with `wf` (both
                     -- layouts) this is `DynDesc.WF`, the hypothesis of `segment_view_eq_section_view`
                     ("wf_c01", Json.bool ((d.container full).wf elfEnv)), ("bytes", jHexOf bytes),
-                    ("expect", specObserve d full names tagq), ("model", modelObserve bytes names tagq)]
+                    ("expect", specObserve d full names tagq), ("model", modelObserve bytes names tagq),
+                    ("ext", specExt d full bytes names)]
+    return Json.mkObj [("full", one true), ("stripped", one false)]
+  | "len" =>
+    let d ← descOfJson (← req.getObjVal? "ast")
+    let one (full : Bool) : Json := match d.assemble full with
+      | none => Json.null
+      | some bytes => jN bytes.length
     return Json.mkObj [("full", one true), ("stripped", one false)]
   | "raw" =>
     let data ← jHex req "hex"
